@@ -138,7 +138,7 @@ Definition show_pres {A} (ok : A -> string) (r : pres A) : string :=
   match r with
   | POk x => "ok:" ++ ok x
   | PErrParse => "parse"
-  | PErrUnknown n => "unknown:" ++ n
+  | PErrUnknown n _ => "unknown:" ++ n
   | PErrOther => "other"
   | PFuel => "fuel"
   end.
